@@ -1,12 +1,13 @@
 (* C06 - Stream reads.  Only statements, each closed by [exact] of a lemma proved in
    Proofs/StreamReadProofs.v, with Print Assumptions beneath.
 
-   The model (Model/StreamRead.v): [exec E (init is_ipc o) ops] runs the top-level
+   The model (Model/StreamRead.v): [exec E (init pipe is_ipc o) ops] runs the top-level
    operations [ops] (uv_read_start / uv_read_stop / uv_close / one uv_run(NOWAIT)
    iteration with the epoll mask the kernel reported) on a stream whose
    read()/recvmsg() answers are the list [o]; [allocs E k] is what the k-th alloc_cb
-   returns, [beh E k] the API calls the k-th read callback makes.  All theorems
-   quantify over every E, o, ops (and both kinds of stream). *)
+   returns, [beh E k] the API calls the k-th read callback makes; [pipe] says whether the
+   stream is a uv_pipe_t (no READ_PARTIAL there since commit 34f0ffa), [is_ipc] whether
+   it reads with recvmsg.  All theorems quantify over every E, o, ops, pipe, is_ipc. *)
 From UV Require Import Lib.Base Model.StreamRead Spec.StreamReadSpec Proofs.StreamReadProofs.
 Local Open Scope Z_scope.
 
@@ -18,8 +19,8 @@ Local Open Scope Z_scope.
    handed out: nothing lost, duplicated or reordered, for every alloc size >= 1 or
    refusal and every stop/start/close interleaving. *)
 Theorem C06_stream_exact :
-  forall (A : Type) (peer : Z -> A) (E : env) (is_ipc : bool) (o : list ans) (ops : list op),
-  let '(s', tr) := exec E (init is_ipc o) ops in
+  forall (A : Type) (peer : Z -> A) (E : env) (pipe is_ipc : bool) (o : list ans) (ops : list op),
+  let '(s', tr) := exec E (init pipe is_ipc o) ops in
   delivered tr = kernel tr /\
   chain 0 (kernel tr) (pos s') /\
   flat_map (bytes peer) (delivered tr) = bytes peer (0, pos s').
@@ -31,8 +32,8 @@ Print Assumptions C06_stream_exact.
    (the short-cut UV_EOF) happens only while none is outstanding; nread never exceeds
    the buffer; read()/recvmsg() is only given the outstanding buffer, whole. *)
 Theorem C06_alloc_paired :
-  forall (E : env) (is_ipc : bool) (o : list ans) (ops : list op),
-  paired None (snd (exec E (init is_ipc o) ops)) = true.
+  forall (E : env) (pipe is_ipc : bool) (o : list ans) (ops : list op),
+  paired None (snd (exec E (init pipe is_ipc o) ops)) = true.
 Proof. exact alloc_paired. Qed.
 Print Assumptions C06_alloc_paired.
 
@@ -40,67 +41,78 @@ Print Assumptions C06_alloc_paired.
    uv_read_stop or uv_close there is no alloc or read callback until uv_read_start
    returns 0 again - and it never does after uv_close. *)
 Theorem C06_silent_until_restart :
-  forall (E : env) (is_ipc : bool) (o : list ans) (ops : list op),
-  silent true false (snd (exec E (init is_ipc o) ops)) = true.
+  forall (E : env) (pipe is_ipc : bool) (o : list ans) (ops : list op),
+  silent true false (snd (exec E (init pipe is_ipc o) ops)) = true.
 Proof. exact silent_until_restart. Qed.
 Print Assumptions C06_silent_until_restart.
 
 (* ... in particular UV_EOF is reported once: a later read callback is preceded by a
    successful uv_read_start. *)
 Theorem C06_eof_once :
-  forall (E : env) (is_ipc : bool) (o : list ans) (ops : list op)
+  forall (E : env) (pipe is_ipc : bool) (o : list ans) (ops : list op)
          pre mid post t1 b1 o1 l1 t2 n2 b2 o2 l2,
-  snd (exec E (init is_ipc o) ops) =
+  snd (exec E (init pipe is_ipc o) ops) =
     pre ++ ERead t1 UV_EOF b1 o1 l1 :: mid ++ ERead t2 n2 b2 o2 l2 :: post ->
   In (ERet 0 0) mid.
 Proof. exact eof_once. Qed.
 Print Assumptions C06_eof_once.
 
-(* UV_EOF only after all data.  Kernel hypothesis [kernel_ok true]: once read() has
-   returned 0, or has come back short while the latest epoll report carried EPOLLHUP
-   ("a short read means the socket buffer is empty"), it never returns data again.
-   (errno 4095 does not exist; -4095 is UV_EOF.)  Then no data is read after any
-   UV_EOF callback.  The second part of the hypothesis is a fact about the kernel for
-   streams whose reads stop only when the buffer is empty (TCP, pipes without
-   descriptor-carrying messages); see the refutation below for the others. *)
-Theorem C06_eof_once_after_data :
+(* UV_EOF only after all data, pipes (ipc or not) - full statement.  Kernel hypothesis
+   [kernel_ok false]: once read()/recvmsg() has returned 0 it never returns data again
+   (and errno 4095 does not exist; -4095 is UV_EOF).  Then no data is read after any
+   UV_EOF callback: on a pipe READ_PARTIAL is never set, the POLLHUP short-cut is dead
+   and every UV_EOF follows a read that returned 0 - also when the kernel stops short
+   behind descriptor-carrying messages (item 20, repaired by commit 34f0ffa). *)
+Theorem C06_eof_once_after_data_pipe :
   forall (E : env) (is_ipc : bool) (o : list ans) (ops : list op),
   Forall errno_ok o ->
-  let tr := snd (exec E (init is_ipc o) ops) in
+  let tr := snd (exec E (init true is_ipc o) ops) in
+  kernel_ok false monB0 tr -> eof_after_all_data tr.
+Proof. exact eof_once_after_data_pipe. Qed.
+Print Assumptions C06_eof_once_after_data_pipe.
+
+(* UV_EOF only after all data, any stream (needed for TCP/TTY, which keep the
+   short-cut): under [kernel_ok true], i.e. additionally "a read that comes back short
+   while the latest epoll report carried EPOLLHUP means the socket buffer is empty". *)
+Theorem C06_eof_once_after_data :
+  forall (E : env) (pipe is_ipc : bool) (o : list ans) (ops : list op),
+  Forall errno_ok o ->
+  let tr := snd (exec E (init pipe is_ipc o) ops) in
   kernel_ok true monB0 tr -> eof_after_all_data tr.
 Proof. exact eof_once_after_data. Qed.
 Print Assumptions C06_eof_once_after_data.
 
-(* Refuted on the current code for IPC pipes: with only "no data after read() returned
-   0" as kernel hypothesis - all the kernel guarantees when recvmsg stops behind a
-   descriptor-carrying message - UV_EOF is reported while data is still buffered.
-   Witness: peer sends "A" + descriptor, "BBBB", closes; answers [Data 1; Data 4; Eof],
-   epoll reports POLLIN|POLLHUP: "A", UV_EOF; "BBBB" only after a new uv_read_start. *)
-Theorem C06_ipc_premature_eof_refuted :
+(* History / why the hypothesis stays for non-pipe streams: with the short-cut and only
+   "no data after read() returned 0", UV_EOF is reported while data is still buffered.
+   This is what pipes did before commit 34f0ffa (item 20: "A" + descriptor, "BBBB",
+   close; answers [Data 1; Data 4; Eof], masks POLLIN|POLLHUP: "A", UV_EOF, "BBBB" only
+   after a new uv_read_start). *)
+Theorem C06_shortcut_needs_short_read_hypothesis :
   exists (E : env) (o : list ans) (ops : list op),
   Forall errno_ok o /\
-  let tr := snd (exec E (init true o) ops) in
+  let tr := snd (exec E (init false false o) ops) in
   kernel_ok false monB0 tr /\ ~ eof_after_all_data tr.
 Proof.
   exists wit_env, wit_oracle, wit_ops.
-  destruct ipc_premature_eof as (H1 & H2 & H3 & _). split; [exact H1|]. split; [exact H2|exact H3].
+  destruct shortcut_premature_eof as (H1 & H2 & H3 & _). split; [exact H1|]. split; [exact H2|exact H3].
 Qed.
-Print Assumptions C06_ipc_premature_eof_refuted.
+Print Assumptions C06_shortcut_needs_short_read_hypothesis.
 
-(* What does hold for IPC pipes: the statement under the full hypothesis, i.e. on runs
-   in which no short read under EPOLLHUP left data behind. *)
-Theorem C06_ipc_eof_partial :
-  forall (E : env) (o : list ans) (ops : list op),
-  Forall errno_ok o ->
-  let tr := snd (exec E (init true o) ops) in
-  kernel_ok true monB0 tr -> eof_after_all_data tr.
-Proof. intros E o ops. exact (eof_once_after_data E true o ops). Qed.
-Print Assumptions C06_ipc_eof_partial.
+(* ... and the same kernel answers on the repaired IPC pipe: "A", "BBBB", one UV_EOF. *)
+Example C06_item20_repaired :
+  let tr := snd (exec wit_env (init true true wit_oracle) [OStart 1; ORun 17; ORun 17; ORun 17; ORun 17]) in
+  kernel_ok false monB0 tr /\
+  delivered tr = [(0, 1); (1, 4)] /\
+  filter (fun e => match e with ERead _ n _ _ _ => n =? UV_EOF | _ => false end) tr =
+    [ERead 1 UV_EOF (Some 2%nat) 0 0] /\
+  eof_data_b tr = true.
+Proof. exact item20_repaired. Qed.
+Print Assumptions C06_item20_repaired.
 
 (* No call through a NULL read_cb (uv_read_stop clears it), whatever the callbacks do. *)
 Theorem C06_no_null_read_cb :
-  forall (E : env) (is_ipc : bool) (o : list ans) (ops : list op),
-  ~ In ECrash (snd (exec E (init is_ipc o) ops)).
+  forall (E : env) (pipe is_ipc : bool) (o : list ans) (ops : list op),
+  ~ In ECrash (snd (exec E (init pipe is_ipc o) ops)).
 Proof. exact no_null_callback. Qed.
 Print Assumptions C06_no_null_read_cb.
 
@@ -108,8 +120,8 @@ Print Assumptions C06_no_null_read_cb.
    handle is active exactly while READING; READ_EOF implies not READING (until
    uv_read_start); a closing handle is neither reading nor readable. *)
 Theorem C06_state_invariant :
-  forall (E : env) (is_ipc : bool) (o : list ans) (ops : list op),
-  let s := fst (exec E (init is_ipc o) ops) in
+  forall (E : env) (pipe is_ipc : bool) (o : list ans) (ops : list op),
+  let s := fst (exec E (init pipe is_ipc o) ops) in
   (reading s = true -> rcb s <> None) /\
   pollin s = reading s /\ active s = reading s /\
   (eof s = true -> reading s = false) /\
@@ -129,21 +141,15 @@ Print Assumptions C06_budget.
    (Spec/StreamReadSpec.v: exact stream, pairing, silence, no NULL call) accepts every
    trace of the model. *)
 Theorem C06_monitor_accepts_model :
-  forall (E : env) (is_ipc : bool) (o : list ans) (ops : list op),
-  monitor (snd (exec E (init is_ipc o) ops)) = (true, true, true, true).
+  forall (E : env) (pipe is_ipc : bool) (o : list ans) (ops : list op),
+  monitor (snd (exec E (init pipe is_ipc o) ops)) = (true, true, true, true).
 Proof. exact monitor_model. Qed.
 Print Assumptions C06_monitor_accepts_model.
 
 (* the kernel hypothesis is satisfiable on a run that ends in the short-cut UV_EOF *)
 Example C06_eof_hypotheses_satisfiable :
-  let tr := snd (exec (mkEnv (fun _ => mkBuf true 64) (fun _ => [])) (init false [Data 5])
+  let tr := snd (exec (mkEnv (fun _ => mkBuf true 64) (fun _ => [])) (init false false [Data 5])
                       [OStart 1; ORun 17; ORun 17]) in
   kernel_ok true monB0 tr /\ In (ERead 1 UV_EOF None 0 0) tr /\ delivered tr = [(0, 5)].
 Proof. exact eof_hypotheses_satisfiable. Qed.
 Print Assumptions C06_eof_hypotheses_satisfiable.
-
-(* the witness of the refutation delivers "A" and "BBBB" in order - around the UV_EOF *)
-Example C06_refutation_trace :
-  delivered (snd (exec wit_env (init true wit_oracle) wit_ops)) = [(0, 1); (1, 4)].
-Proof. destruct ipc_premature_eof as (_ & _ & _ & H). exact H. Qed.
-Print Assumptions C06_refutation_trace.
